@@ -67,6 +67,8 @@ type World struct {
 	dispCache       map[string]*dispatch
 	kindCache       map[kindRunKey]*kindRunResult
 	etsCache        map[string]ISet
+	ctabs           map[*ssa.Global]*ctabEntry // consttab.go
+	ctabRefs        map[string]*ctabRef
 }
 
 func loadWorld(repo string, cfg Config) (*World, error) {
